@@ -99,6 +99,35 @@ func (x *symExec) cond(e ast.Expr) (bool, error) {
 	return false, fmt.Errorf("condition %s not understood", types.ExprString(e))
 }
 
+// sameValue: two expressions denote the same value (equal constants, or input atoms of equal rank).
+func (x *symExec) sameValue(a, b ast.Expr) (bool, error) {
+	pa, err := x.env.fold(a)
+	if err != nil {
+		return false, err
+	}
+	pb, err := x.env.fold(b)
+	if err != nil {
+		return false, err
+	}
+	ca, okA := pa.isConst()
+	cb, okB := pb.isConst()
+	if okA && okB {
+		return ca.Cmp(cb) == 0, nil
+	}
+	if okA != okB {
+		return false, nil
+	}
+	ra, _, _, err := x.operand(a)
+	if err != nil {
+		return false, err
+	}
+	rb, _, _, err := x.operand(b)
+	if err != nil {
+		return false, err
+	}
+	return ra == rb, nil
+}
+
 // run executes a statement list; ret != nil when a return was executed.
 func (x *symExec) run(list []ast.Stmt) (ret *poly, err error) {
 	for _, s := range list {
@@ -177,6 +206,53 @@ func (x *symExec) run(list []ast.Stmt) (ret *poly, err error) {
 			r, err := x.run(st.List)
 			if err != nil || r != nil {
 				return r, err
+			}
+		case *ast.SwitchStmt:
+			if st.Init != nil {
+				if _, err := x.run([]ast.Stmt{st.Init}); err != nil {
+					return nil, err
+				}
+			}
+			var chosen, deflt *ast.CaseClause
+			for _, cs := range st.Body.List {
+				cc := cs.(*ast.CaseClause)
+				if cc.List == nil {
+					deflt = cc
+					continue
+				}
+				if chosen != nil {
+					continue
+				}
+				for _, v := range cc.List {
+					var hit bool
+					var err error
+					if st.Tag != nil {
+						hit, err = x.sameValue(st.Tag, v)
+					} else {
+						hit, err = x.cond(v)
+					}
+					if err != nil {
+						return nil, err
+					}
+					if hit {
+						chosen = cc
+						break
+					}
+				}
+			}
+			if chosen == nil {
+				chosen = deflt
+			}
+			if chosen != nil {
+				for _, b := range chosen.Body {
+					if br, ok := b.(*ast.BranchStmt); ok && br.Tok == token.FALLTHROUGH {
+						return nil, fmt.Errorf("fallthrough not understood")
+					}
+				}
+				r, err := x.run(chosen.Body)
+				if err != nil || r != nil {
+					return r, err
+				}
 			}
 		case *ast.ReturnStmt:
 			if len(st.Results) != 1 {
